@@ -13,6 +13,7 @@ import Flax.Proofs.RngNnxSplit
 import Flax.Proofs.RngNnxHist
 import Flax.Proofs.RngNoReuseJit
 import Flax.Proofs.RngAlias
+import Flax.Proofs.RngReseed
 
 namespace Flax.C09
 open Flax.Rng
@@ -448,6 +449,52 @@ theorem reseed_split_rejected (name tag : String) (k k' : SymKey) (shape : List 
     reseedLoop newKeys [(name, { tag := tag, key := .batched k shape, count := cv })] = .error .nonScalarReseed := by
   simp [reseedLoop, h]
 
+/-- **Reseed resets every stream carrying a requested name, regardless of multiplicity.**  A node may hold any number of distinct
+`RngStream` objects with the same name (sub-modules built with their own `Rngs`); `iter_graph` lists each object once.  If no
+requested stream is split, `reseed` succeeds and *every* object whose name is in the map gets the requested key and count 0, and
+every other object is untouched (`reseedOne`). -/
+theorem reseed_resets_every_named_stream {ι : Type} (newKeys : List (String × SymKey)) (objs : List (ι × Stream))
+    (h : ∀ p ∈ objs, ¬ NamedSplit newKeys p.2) :
+    reseedLoop newKeys objs = .ok (objs.map (fun p => (p.1, reseedOne newKeys p.2))) ∧
+    (∀ p ∈ objs, ∀ k, find? p.2.tag newKeys = some k →
+      reseedOne newKeys p.2 = { p.2 with key := .scalar k, count := .scalar 0 }) ∧
+    (∀ p ∈ objs, find? p.2.tag newKeys = none → reseedOne newKeys p.2 = p.2) := by
+  refine ⟨reseedLoop_ok newKeys objs h, ?_, ?_⟩
+  · intro p _ k hk; simp [reseedOne, hk]
+  · intro p _ hk; simp [reseedOne, hk]
+
+/-- … and it is rejected as soon as one requested stream (any of the objects with that name) is split -/
+theorem reseed_rejects_named_split_stream {ι : Type} (newKeys : List (String × SymKey)) (objs : List (ι × Stream))
+    (h : ∃ p ∈ objs, NamedSplit newKeys p.2) : reseedLoop newKeys objs = .error .nonScalarReseed :=
+  reseedLoop_error newKeys objs h
+
+/-- after a reseed, every object with a requested name — reached through any attribute — draws `fold_in(new key, 0), …` -/
+theorem reseed_then_calls_every_object {ι : Type} (newKeys : List (String × SymKey)) (objs : List (ι × Stream))
+    (p : ι × Stream) (hp : p ∈ objs) (k : SymKey)
+    (hk : find? p.2.tag newKeys = some k) (n : Nat) :
+    (p.1, reseedOne newKeys p.2) ∈ (objs.map (fun q => (q.1, reseedOne newKeys q.2))) ∧
+    Stream.callN (reseedOne newKeys p.2) n =
+      .ok ((List.range n).map (fun i => SymKey.foldIn k i), { tag := p.2.tag, key := .scalar k, count := .scalar n }) := by
+  refine ⟨List.mem_map_of_mem hp, ?_⟩
+  have : reseedOne newKeys p.2 = { tag := p.2.tag, key := .scalar k, count := .scalar 0 } := by simp [reseedOne, hk]
+  rw [this]
+  have := Stream.callN_scalar p.2.tag k n 0
+  simpa using this
+
+/-- **Counter-example for a `reseed` that consumes each name once** (not the shipped code): two objects named `dropout`; only the
+first in traversal order is reset, the second keeps its old key and count. -/
+theorem reseed_once_per_name_misses_second_stream :
+    let objs : List (Nat × Stream) :=
+      [(0, { tag := "dropout", key := .scalar (.seed 1), count := .scalar 2 }),
+       (1, { tag := "dropout", key := .scalar (.seed 2), count := .scalar 3 })]
+    reseedLoop [("dropout", SymKey.seed 9)] objs =
+      .ok [(0, { tag := "dropout", key := .scalar (.seed 9), count := .scalar 0 }),
+           (1, { tag := "dropout", key := .scalar (.seed 9), count := .scalar 0 })] ∧
+    reseedPopLoop [("dropout", SymKey.seed 9)] objs =
+      .ok [(0, { tag := "dropout", key := .scalar (.seed 9), count := .scalar 0 }),
+           (1, { tag := "dropout", key := .scalar (.seed 2), count := .scalar 3 })] := by
+  exact ⟨rfl, rfl⟩
+
 /-- `nnx.fork` is pure and splits the stream key itself (no draw): its lanes' keys differ from every key of
 the stream it was forked from -/
 theorem fork_keys_fresh (k : SymKey) (shape idx : List Nat) (t j : Nat) :
@@ -646,6 +693,15 @@ example : let p : Prog := .sub "A" (.jit (.draw "x" (.sub "k" (.jit (.draw "drop
 example : Canon (CHeap.init.pushC (0, []) "k").1 ∧ (find? ((0, []) : CRef) (CHeap.init.pushC (0, []) "k").1.cells).isSome ∧
     (CHeap.init.pushC (0, []) "k").1.walk (0, []) ["k"] = some (0, ["k"]) :=
   ⟨(pushC_spec CHeap.init canon_init (0, []) (by decide) "k").2.1, by decide, by decide⟩
+/-- `reseed_resets_every_named_stream`: hypothesis on a node with two `dropout` objects and one `params` object -/
+example : ∀ p ∈ ([(0, { tag := "dropout", key := .scalar (.seed 1), count := .scalar 2 }),
+      (1, { tag := "params", key := .scalar (.seed 0), count := .scalar 1 }),
+      (2, { tag := "dropout", key := .scalar (.seed 2), count := .scalar 3 })] : List (Nat × Stream)),
+    ¬ NamedSplit [("dropout", SymKey.seed 9)] p.2 := by
+  intro p hp hns
+  obtain ⟨_, k, shape, hk⟩ := hns
+  simp only [List.mem_cons, List.mem_nil_iff, or_false] at hp
+  rcases hp with rfl | rfl | rfl <;> simp at hk
 /-- `nnx_no_replay_along_history`: an accepted history with two split rounds (1-D and 2-D), 13 keys -/
 example : ∃ outs, srun (stateOf "params" (.seed 0) (.top 0))
     [.call, .split [2], .lanes 2, .lanes 1, .restore, .call, .split [2, 2], .lanes 1, .restore, .call] = .ok outs ∧
